@@ -36,7 +36,9 @@ type Profile struct {
 	Alt                  *Profile // alternative profile used for PAlt percent of the cases
 	PAlt                 int
 	IsAlt                bool
-	InjectAfterOnly      bool   // schedule injected calls only after EndBlock / after Commit (engines that serve them while drawing, C19)
+	InjectAfterOnly      bool // schedule injected calls only after EndBlock / after Commit (engines that serve them while drawing, C19)
+	Crowd                int  // percent of the cases run with a crowd (140 users, full blocks): the cache sizes of the ledgers (128) are exceeded within one block
+	IsCrowd              bool
 	GasFaults            bool   // half of the deliberate faults are gas/price faults (C16)
 	BlockGasBoundary     bool   // now and then a contract-path tx asks for exactly the block gas limit (or one more/less)
 	LiveInject           bool   // only prepare fresh valid txs per block; the engine serves them as CheckTx while it drives the primary
@@ -206,7 +208,18 @@ func NewGenSource(t *rapid.T, p *Profile) *GenSource {
 		q.EarlyQuiet, q.OneGenesisUnbond = p.EarlyQuiet, p.OneGenesisUnbond
 		p = &q
 	}
-	if tier() == "thorough" && pct(t, 35, "largeCase") {
+	if p.Crowd > 0 && pct(t, p.Crowd, "crowdCase") {
+		q := *p
+		q.IsCrowd = true
+		q.Users = 140
+		q.MaxVals = 3
+		q.MinBlocks, q.MaxBlocks = 8, 14
+		q.MaxTxs = 70
+		q.PFault = 3
+		q.PEvidence, q.PAbsent = 2, 2
+		q.W = map[string]int{"transfer": 14, "stake": 52, "unstake": 26, "withdraw": 6, "setdoc": 1, "propose": 1, "vote": 1}
+		p = &q
+	} else if tier() == "thorough" && pct(t, 35, "largeCase") {
 		// deeper bounds in the thorough tier: longer histories, fuller blocks, more actors and validators
 		q := *p
 		q.MaxBlocks = p.MaxBlocks * 2
@@ -278,6 +291,11 @@ func (s *GenSource) genGenesis() *Genesis {
 		name := fmt.Sprintf("U%d", i)
 		s.users = append(s.users, actorNamed(name))
 		g.Users = append(g.Users, name)
+		if s.P.IsCrowd && i >= 8 {
+			// the crowd: same modest balance for everybody (enough for a few small stakes and fees)
+			g.Balances = append(g.Balances, GenBal{Actor: name, Balance: rigo(40).Dec()})
+			continue
+		}
 		bal := rigo(uint64(rapid.IntRange(1, 3000).Draw(t, "userBal")))
 		if pct(t, 30, "oddBal") {
 			bal.Add(bal, u256(uint64(rapid.IntRange(0, 1_000_000_000).Draw(t, "userBalFrac"))))
@@ -661,6 +679,9 @@ func (s *GenSource) genTx(w *World, b *Block) ([]byte, string) {
 			sp.to = pick(t, s.all, "toAny").Addr
 		}
 		units := uint64(pick(t, []int{1, 1, 2, 3, 5, 10, 50}, "units"))
+		if s.P.IsCrowd {
+			units = uint64(1 + unif(t, 3, "unitsCrowd"))
+		}
 		if s.P.SmallPowers {
 			units = uint64(1 + unif(t, 3, "unitsSmall"))
 		}
@@ -688,6 +709,18 @@ func (s *GenSource) genTx(w *World, b *Block) ([]byte, string) {
 		sp.typ = ctypes.TRX_UNSTAKING
 		ls := s.liveStakes(w)
 		var id []byte
+		if s.P.IsCrowd && pct(t, 12, "crowdValidatorExit") {
+			// a validator withdraws its own stake: everybody who delegated to it is released at once
+			var own []*MStake
+			for _, st := range ls {
+				if string(st.Owner) == string(st.To) {
+					own = append(own, st)
+				}
+			}
+			if len(own) > 0 {
+				ls = own
+			}
+		}
 		switch k := unif(t, 10, "unstakeKind"); {
 		case k <= 6 && len(ls) > 0: // owner
 			st := pick(t, ls, "stake")
@@ -862,6 +895,10 @@ func (s *GenSource) genTx(w *World, b *Block) ([]byte, string) {
 		sp.typ = ctypes.TRX_CONTRACT
 		sp.from = pick(t, s.all, "from")
 		sp.to = unhx(pick(t, sortedKeys(w.Contracts), "contract"))
+		if pct(t, 18, "callPlainAccount") {
+			// a contract-type tx may address an account without code (a plain value transfer executed by the EVM)
+			sp.to = pick(t, s.all, "callEOA").Addr
+		}
 		if pct(t, 40, "callValue") {
 			sp.amount = s.amountFor(w, sp.from, "callAmtKind")
 		}
